@@ -348,3 +348,8 @@ proof fn lemma_empties_push(a: Seq<Seq<char>>, k: nat)
 /// `%YAML 1.2` directive line followed by the document start marker line (YAML 1.2, 9.1: a document that has
 /// directives must begin with an explicit `---`)
 spec fn yaml12_document_prefix() -> Seq<char> { seq!['%', 'Y', 'A', 'M', 'L', ' ', '1', '.', '2', '\n', '-', '-', '-', '\n'] }
+
+/// the text ends with the three given characters
+spec fn ends_with3(t: Seq<char>, a: char, b: char, c: char) -> bool {
+    t.len() >= 3 && t[t.len() - 3] == a && t[t.len() - 2] == b && t[t.len() - 1] == c
+}
